@@ -334,10 +334,17 @@ func TestGrid(t *testing.T) {
 			checker.Run(t, Case{Words: w, Style: "grid-very-long", Ranges: rs})
 		}
 	}
-	for v := 0; v < gen.MaxVariants; v++ { // exactly 2^31 bits: the largest positions an int32 holds
-		checker.Run(t, Case{Max: v + 1, Style: "maximum", Ranges: maxRanges(v)})
-	}
 	vk.CountConstructed(evals, nontriv, "grid-range")
 	vk.AddSample(map[string]any{"grid": "216 three-word bitmaps x all (i,end)", "example": map[string]any{"words": []string{"8000000000000000", "0", "1"}, "i": 64, "end": 130, "NextOne": bitmap.NextOne([]uint64{1 << 63, 0, 1}, 64, 130), "PrevOne": bitmap.PrevOne([]uint64{1 << 63, 0, 1}, 64, 130)}})
 	vk.MarkExhaustive("all 216 three-word bitmaps over a 6-word palette x all 0<=i<=end<=192")
+}
+
+// TestLast runs at the very end of the process: huge inputs (the maximum bitmap / string) and the regression cases of that size come last, so that
+// what they leave behind in the library cannot mask anything the ordinary cases would have met.
+func TestLast(t *testing.T) {
+	vk.SetPhase("last")
+	for v := 0; v < gen.MaxVariants; v++ { // exactly 2^31 bits: the largest positions an int32 holds
+		checker.Run(t, Case{Max: v + 1, Style: "maximum", Ranges: maxRanges(v)})
+	}
+	checker.RegressLast(t)
 }
